@@ -517,7 +517,7 @@ func (h *Session) SetDHCPv4IPOffer(mac net.HardwareAddr, ip netip.Addr, name Nam
 	macEntry := h.MACTable.findOrCreate(mac)
 	macEntry.IP4Offer = ip
 	macEntry.Row.Lock() // the names are read by notifications under the row lock
-	macEntry.DHCP4Name = name
+	macEntry.DHCP4Name, _ = macEntry.DHCP4Name.Merge(name) // a discover without a host name does not erase the known one
 	macEntry.Row.Unlock()
 }
 
